@@ -51,10 +51,7 @@ inductive Gate6492 {Bytes : Type} (decode : Bytes → Option (Signed Msg)) (ca :
       (hl : lookup ca.children sg.body.sender = some c)
       (hs : sg.signer = c.idKey ∧ sg.fresh = true) (r : Ca × Out Msg)
       (hr : r =
-        let c1 := { c with suspended := false }
-        let ca1 := if c.suspended then
-            { ca with children := update ca.children sg.body.sender (fun _ => c1) } else ca
-        match dispatch ca1 sg.body.sender c1 sg.body.payload with
+        match processRequest ca sg.body.sender c sg.body.payload with
         | (ca2, none) => (ca2, .refused .processing)
         | (ca2, some p) =>
           (ca2, .replied { signer := ca.idKey,
@@ -220,10 +217,54 @@ def Payload.key? : Payload → Option Key
   | .revoke _ k => some k
   | _ => none
 
-theorem mem_removeKey (l : List (Key × String × Handle × List Nat)) (k : Key)
-    (ce : Key × String × Handle × List Nat) :
+theorem mem_removeKey (l : List Cert) (k : Key) (ce : Cert) :
     ce ∈ removeKey l k ↔ ce ∈ l ∧ ce.1 ≠ k := by
   simp [removeKey]
+
+theorem mem_removeSusp (l : List SuspCert) (k : Key) (cls : String) (s : SuspCert) :
+    s ∈ removeSusp l k cls ↔ s ∈ l ∧ ¬ (s.key = k ∧ s.cls = cls) := by
+  simp only [removeSusp, List.mem_filter]
+  constructor
+  · rintro ⟨h1, h2⟩
+    refine ⟨h1, ?_⟩
+    rintro ⟨rfl, rfl⟩
+    simp at h2
+  · rintro ⟨h1, h2⟩
+    refine ⟨h1, ?_⟩
+    by_cases a : s.key = k <;> by_cases b : s.cls = cls <;> simp_all
+
+theorem subset_inter_right (a b : List Nat) : subset (inter a b) b = true := by
+  rw [subset_iff]; intro x hx
+  simp only [inter, List.mem_filter, List.contains_iff_mem] at hx
+  exact hx.2
+
+/-- What `issue_cert` hands out is inside what was asked for and inside the class. -/
+theorem issueRes_some (classRes asked limit g : List Nat) (h : issueRes classRes asked limit = some g) :
+    subset g asked = true ∧ subset g classRes = true := by
+  simp only [issueRes] at h
+  cases hl : limit.isEmpty with
+  | true =>
+    simp only [hl, if_true, Option.some.injEq] at h
+    subst h
+    exact ⟨subset_inter_left _ _, subset_inter_right _ _⟩
+  | false =>
+    simp only [hl, Bool.false_eq_true, if_false] at h
+    cases hs : subset limit (inter asked classRes) with
+    | true =>
+      simp only [hs, if_true, Option.some.injEq] at h
+      subst h
+      exact ⟨subset_trans _ _ _ hs (subset_inter_left _ _), subset_trans _ _ _ hs (subset_inter_right _ _)⟩
+    | false => simp [hs] at h
+
+/-- `issue_cert` fails exactly when a limit is given that is not inside class ∩ asked. -/
+theorem issueRes_none_iff (classRes asked limit : List Nat) :
+    issueRes classRes asked limit = none ↔
+      limit ≠ [] ∧ subset limit (inter asked classRes) = false := by
+  simp only [issueRes]
+  cases limit with
+  | nil => simp
+  | cons x t =>
+    cases hs : subset (x :: t) (inter asked classRes) <;> simp
 
 theorem dispatch_frame (ca : Ca) (child : Handle) (c : ChildRec) (pl : Payload) :
     (dispatch ca child c pl).1.handle = ca.handle ∧
@@ -231,55 +272,53 @@ theorem dispatch_frame (ca : Ca) (child : Handle) (c : ChildRec) (pl : Payload) 
     (dispatch ca child c pl).1.classes = ca.classes ∧
     (∀ h, h ≠ child → lookup (dispatch ca child c pl).1.children h = lookup ca.children h) ∧
     (∀ ce ∈ (dispatch ca child c pl).1.certs,
-        ce ∈ ca.certs ∨ (ce.2.2.1 = child ∧ subset ce.2.2.2 c.resources = true ∧
-          ∃ res, lookup ca.classes ce.2.1 = some res ∧ subset ce.2.2.2 res = true)) ∧
+        ce ∈ ca.certs ∨ (ce.2.2.1 = child ∧ subset ce.2.2.2.1 c.resources = true ∧
+          ∃ res, lookup ca.classes ce.2.1 = some res ∧ subset ce.2.2.2.1 res = true)) ∧
     (∀ ce ∈ ca.certs, ce ∈ (dispatch ca child c pl).1.certs ∨
         (pl.key? = some ce.1 ∧
-          (∀ cls k, pl = .revoke cls k → c.inUse.any (·.1 == k) = true))) := by
+          (∀ cls k, pl = .revoke cls k → c.inUse.any (·.1 == k) = true))) ∧
+    (∀ s ∈ (dispatch ca child c pl).1.suspendedCerts, s ∈ ca.suspendedCerts) ∧
+    (∀ s ∈ ca.suspendedCerts, s ∈ (dispatch ca child c pl).1.suspendedCerts ∨ pl.key? = some s.key) := by
+  have same : ∀ ca0 : Ca, ca0 = ca →
+      ca0.handle = ca.handle ∧ ca0.idKey = ca.idKey ∧ ca0.classes = ca.classes ∧
+      (∀ h, h ≠ child → lookup ca0.children h = lookup ca.children h) ∧
+      (∀ ce ∈ ca0.certs,
+        ce ∈ ca.certs ∨ (ce.2.2.1 = child ∧ subset ce.2.2.2.1 c.resources = true ∧
+          ∃ res, lookup ca.classes ce.2.1 = some res ∧ subset ce.2.2.2.1 res = true)) ∧
+      (∀ ce ∈ ca.certs, ce ∈ ca0.certs ∨
+        (pl.key? = some ce.1 ∧
+          (∀ cls k, pl = .revoke cls k → c.inUse.any (·.1 == k) = true))) ∧
+      (∀ s ∈ ca0.suspendedCerts, s ∈ ca.suspendedCerts) ∧
+      (∀ s ∈ ca.suspendedCerts, s ∈ ca0.suspendedCerts ∨ pl.key? = some s.key) := by
+    intro ca0 h; subst h
+    exact ⟨rfl, rfl, rfl, fun _ _ => rfl, fun ce h => Or.inl h, fun ce h => Or.inl h,
+      fun s h => h, fun s h => Or.inl h⟩
   cases pl with
-  | list => exact ⟨rfl, rfl, rfl, fun _ _ => rfl, fun ce h => Or.inl h, fun ce h => Or.inl h⟩
-  | listResponse x => exact ⟨rfl, rfl, rfl, fun _ _ => rfl, fun ce h => Or.inl h, fun ce h => Or.inl h⟩
-  | issueResponse x y z => exact ⟨rfl, rfl, rfl, fun _ _ => rfl, fun ce h => Or.inl h, fun ce h => Or.inl h⟩
-  | revokeResponse x y => exact ⟨rfl, rfl, rfl, fun _ _ => rfl, fun ce h => Or.inl h, fun ce h => Or.inl h⟩
-  | errorResponse x => exact ⟨rfl, rfl, rfl, fun _ _ => rfl, fun ce h => Or.inl h, fun ce h => Or.inl h⟩
+  | list => exact same _ rfl
+  | listResponse x => exact same _ rfl
+  | issueResponse x y z => exact same _ rfl
+  | revokeResponse x y => exact same _ rfl
+  | errorResponse x => exact same _ rfl
   | issue cls key limit csrOk =>
     simp only [dispatch]
     cases hc : lookup ca.classes cls with
-    | none => exact ⟨rfl, rfl, rfl, fun _ _ => rfl, fun ce h => Or.inl h, fun ce h => Or.inl h⟩
+    | none => exact same _ rfl
     | some res =>
       simp only
-      by_cases hcond : (!csrOk || (inter c.resources res).isEmpty ||
-          !(subset limit (inter c.resources res))) = true
-      · simp only [hcond, if_true]
-        (refine ⟨?_, ?_, ?_, ?_, ?_, ?_⟩ <;> first | rfl | trivial | (intro _ _; rfl) | (intro _ _; trivial) | (intro ce h; exact Or.inl h))
-      · have hcf : (!csrOk || (inter c.resources res).isEmpty ||
-            !(subset limit (inter c.resources res))) = false := by
-          cases hx : (!csrOk || (inter c.resources res).isEmpty ||
-            !(subset limit (inter c.resources res))) with
-          | true => exact absurd hx hcond
-          | false => rfl
-        simp only [hcf, Bool.false_eq_true, if_false]
-        have hlim : subset limit (inter c.resources res) = true := by
-          simp only [Bool.or_eq_true, Bool.not_eq_true', not_or, Bool.not_eq_false] at hcond
-          exact hcond.2
+      cases hg : (if csrOk = true then issueRes res c.resources limit else none) with
+      | none => exact same _ rfl
+      | some grant =>
+        simp only
+        have hir : issueRes res c.resources limit = some grant := by
+          by_cases hcsr : csrOk = true
+          · simpa [hcsr] using hg
+          · simp [hcsr] at hg
+        obtain ⟨g1, g2⟩ := issueRes_some _ _ _ _ hir
         refine ⟨by first | rfl | trivial, by first | rfl | trivial, by first | rfl | trivial,
-          fun h hne => lookup_update_ne _ _ _ _ hne, ?_, ?_⟩
+          fun h hne => lookup_update_ne _ _ _ _ hne, ?_, ?_, ?_, ?_⟩
         · intro ce hce
           rcases List.mem_cons.mp hce with rfl | hce
-          · right
-            refine ⟨rfl, ?_, res, hc, ?_⟩
-            · by_cases hl : limit.isEmpty = true
-              · simp only [hl, if_true]; exact subset_inter_left _ _
-              · simp only [hl]
-                exact subset_trans _ _ _ hlim (subset_inter_left _ _)
-            · have hir : subset (inter c.resources res) res = true := by
-                rw [subset_iff]; intro x hx
-                simp only [inter, List.mem_filter, List.contains_iff_mem] at hx
-                exact hx.2
-              by_cases hl : limit.isEmpty = true
-              · simp only [hl, if_true]; exact hir
-              · simp only [hl]
-                exact subset_trans _ _ _ hlim hir
+          · right; exact ⟨rfl, g1, res, hc, g2⟩
           · left; exact ((mem_removeKey _ _ _).mp hce).1
         · intro ce hce
           by_cases hk : ce.1 = key
@@ -288,16 +327,21 @@ theorem dispatch_frame (ca : Ca) (child : Handle) (c : ChildRec) (pl : Payload) 
             intro cls' k' h; cases h
           · left
             exact List.mem_cons_of_mem _ ((mem_removeKey _ _ _).mpr ⟨hce, hk⟩)
+        · intro s hs; exact ((mem_removeSusp _ _ _ _).mp hs).1
+        · intro s hs
+          by_cases hk : s.key = key ∧ s.cls = cls
+          · right; simp [Payload.key?, hk.1]
+          · left; exact (mem_removeSusp _ _ _ _).mpr ⟨hs, hk⟩
   | revoke cls key =>
     simp only [dispatch]
     cases hc : lookup ca.classes cls with
-    | none => exact ⟨rfl, rfl, rfl, fun _ _ => rfl, fun ce h => Or.inl h, fun ce h => Or.inl h⟩
+    | none => exact same _ rfl
     | some res =>
       simp only
       by_cases hu : c.inUse.any (·.1 == key) = true
       · simp only [hu, if_true]
         refine ⟨by first | rfl | trivial, by first | rfl | trivial, by first | rfl | trivial,
-          fun h hne => lookup_update_ne _ _ _ _ hne, ?_, ?_⟩
+          fun h hne => lookup_update_ne _ _ _ _ hne, ?_, ?_, ?_, ?_⟩
         · intro ce hce; left; exact ((mem_removeKey _ _ _).mp hce).1
         · intro ce hce
           by_cases hk : ce.1 = key
@@ -306,18 +350,25 @@ theorem dispatch_frame (ca : Ca) (child : Handle) (c : ChildRec) (pl : Payload) 
             intro cls' k' h
             cases h; exact hu
           · left; exact (mem_removeKey _ _ _).mpr ⟨hce, hk⟩
+        · intro s hs; exact ((mem_removeSusp _ _ _ _).mp hs).1
+        · intro s hs
+          by_cases hk : s.key = key ∧ s.cls = cls
+          · right; simp [Payload.key?, hk.1]
+          · left; exact (mem_removeSusp _ _ _ _).mpr ⟨hs, hk⟩
       · have huf : c.inUse.any (·.1 == key) = false := by
           cases hx : c.inUse.any (·.1 == key) with
           | true => exact absurd hx hu
           | false => rfl
         simp only [huf, Bool.false_eq_true, if_false]
-        (refine ⟨?_, ?_, ?_, ?_, ?_, ?_⟩ <;> first | rfl | trivial | (intro _ _; rfl) | (intro _ _; trivial) | (intro ce h; exact Or.inl h))
+        (refine ⟨?_, ?_, ?_, ?_, ?_, ?_, ?_, ?_⟩ <;>
+          first | rfl | trivial | (intro _ _; rfl) | (intro _ _; trivial) | (intro s h; exact h) |
+            (intro ce h; exact Or.inl h))
 
 /-- What `dispatch` answers, by request kind. -/
 def ReplyFor (ca ca' : Ca) (child : Handle) (c : ChildRec) : Payload → Payload → Prop
   | .list, rp => ca' = ca ∧ rp = .listResponse (entitlements ca child c)
-  | .issue cls key _ _, rp =>
-    ∃ grant res, rp = .issueResponse cls key grant ∧ (key, cls, child, grant) ∈ ca'.certs ∧
+  | .issue cls key limit _, rp =>
+    ∃ grant res, rp = .issueResponse cls key grant ∧ (key, cls, child, grant, limit) ∈ ca'.certs ∧
       lookup ca.classes cls = some res ∧ subset grant c.resources = true ∧ subset grant res = true
   | .revoke cls key, rp =>
     rp = .revokeResponse cls key ∧
@@ -328,8 +379,11 @@ theorem dispatch_reply (ca : Ca) (child : Handle) (c : ChildRec) (pl rp : Payloa
     (h : dispatch ca child c pl = (ca', some rp)) : ReplyFor ca ca' child c pl rp := by
   cases pl with
   | list =>
-    simp only [dispatch, Prod.mk.injEq, Option.some.injEq] at h
-    exact ⟨h.1.symm, h.2.symm⟩
+    simp only [dispatch, Prod.mk.injEq] at h
+    obtain ⟨h1, h2⟩ := h
+    split at h2
+    · exact ⟨h1.symm, (Option.some.inj h2).symm⟩
+    · cases h2
   | listResponse x => simp [dispatch] at h
   | issueResponse x y z => simp [dispatch] at h
   | revokeResponse x y => simp [dispatch] at h
@@ -340,27 +394,22 @@ theorem dispatch_reply (ca : Ca) (child : Handle) (c : ChildRec) (pl rp : Payloa
     | none => simp [hc] at h
     | some res =>
       simp only [hc] at h
-      cases hcond : (!csrOk || (inter c.resources res).isEmpty ||
-          !(subset limit (inter c.resources res))) with
-      | true => simp [hcond] at h
-      | false =>
-        simp only [hcond, Bool.false_eq_true, if_false, Prod.mk.injEq, Option.some.injEq] at h
+      cases hg : (if csrOk = true then issueRes res c.resources limit else none) with
+      | none => simp [hg] at h
+      | some grant =>
+        simp only [hg, Prod.mk.injEq] at h
         obtain ⟨h1, h2⟩ := h
-        subst h1 h2
-        have hlim : subset limit (inter c.resources res) = true := by
-          simp only [Bool.or_eq_false_iff, Bool.not_eq_false'] at hcond
-          exact hcond.2
-        have hir : subset (inter c.resources res) res = true := by
-          rw [subset_iff]; intro x hx
-          simp only [inter, List.mem_filter, List.contains_iff_mem] at hx
-          exact hx.2
-        refine ⟨_, res, rfl, List.mem_cons_self, hc, ?_, ?_⟩
-        · by_cases hl : limit.isEmpty = true
-          · simp only [hl, if_true]; exact subset_inter_left _ _
-          · simp only [hl]; exact subset_trans _ _ _ hlim (subset_inter_left _ _)
-        · by_cases hl : limit.isEmpty = true
-          · simp only [hl, if_true]; exact hir
-          · simp only [hl]; exact subset_trans _ _ _ hlim hir
+        have hir : issueRes res c.resources limit = some grant := by
+          by_cases hcsr : csrOk = true
+          · simpa [hcsr] using hg
+          · simp [hcsr] at hg
+        obtain ⟨g1, g2⟩ := issueRes_some _ _ _ _ hir
+        split at h2
+        · split at h2
+          · subst h1
+            exact ⟨grant, res, (Option.some.inj h2).symm, List.mem_cons_self, hc, g1, g2⟩
+          · cases h2
+        · cases h2
   | revoke cls key =>
     simp only [dispatch] at h
     cases hc : lookup ca.classes cls with
@@ -374,6 +423,313 @@ theorem dispatch_reply (ca : Ca) (child : Handle) (c : ChildRec) (pl rp : Payloa
       | true =>
         simp only [hu, if_true, Prod.mk.injEq, Option.some.injEq] at h
         exact ⟨h.2.symm, Or.inr hu⟩
+
+/-! ### the automatic un-suspension -/
+
+theorem suspFor_some (ca : Ca) (cls : String) (k : Key) (s : SuspCert) (h : suspFor ca cls k = some s) :
+    s ∈ ca.suspendedCerts ∧ s.key = k ∧ s.cls = cls := by
+  simp only [suspFor] at h
+  have h1 := List.mem_of_find?_eq_some h
+  have h2 := List.find?_some h
+  simp only [Bool.and_eq_true, beq_iff_eq] at h2
+  exact ⟨h1, h2.1, h2.2⟩
+
+/-- `fate` once the class and the suspended certificate in the slot are known. -/
+theorem fate_of_slot (ca : Ca) (c : ChildRec) (ku : Key × String) (cres : List Nat) (s : SuspCert)
+    (hc : lookup ca.classes ku.2 = some cres) (hs : suspFor ca ku.2 ku.1 = some s) :
+    fate ca c ku =
+      if (!s.expiring && subset s.res c.resources) = true then
+        (match issueRes cres s.res s.limit with
+         | some g => .reissue g s.limit
+         | none => .fail)
+      else .drop := by
+  simp only [fate, hc, hs]
+  rfl
+
+theorem fate_reissue (ca : Ca) (c : ChildRec) (ku : Key × String) (g l : List Nat)
+    (h : fate ca c ku = .reissue g l) :
+    ∃ cres s, lookup ca.classes ku.2 = some cres ∧ suspFor ca ku.2 ku.1 = some s ∧
+      s.expiring = false ∧ subset s.res c.resources = true ∧
+      issueRes cres s.res s.limit = some g ∧ l = s.limit := by
+  simp only [fate] at h
+  cases hc : lookup ca.classes ku.2 with
+  | none => simp [hc] at h
+  | some cres =>
+    simp only [hc] at h
+    cases hs : suspFor ca ku.2 ku.1 with
+    | none => simp [hs] at h
+    | some s =>
+      simp only [hs] at h
+      by_cases hcond : (!s.expiring && subset s.res c.resources) = true
+      · simp only [hcond, if_true] at h
+        cases hi : issueRes cres s.res s.limit with
+        | none => simp [hi] at h
+        | some g' =>
+          simp only [hi, Fate.reissue.injEq] at h
+          simp only [Bool.and_eq_true, Bool.not_eq_true'] at hcond
+          exact ⟨cres, s, rfl, rfl, hcond.1, hcond.2, by rw [hi, h.1], h.2.symm⟩
+      · simp [hcond] at h
+
+theorem fate_drop (ca : Ca) (c : ChildRec) (ku : Key × String) (h : fate ca c ku = .drop) :
+    ∃ cres s, lookup ca.classes ku.2 = some cres ∧ suspFor ca ku.2 ku.1 = some s ∧
+      ¬ (s.expiring = false ∧ subset s.res c.resources = true) := by
+  simp only [fate] at h
+  cases hc : lookup ca.classes ku.2 with
+  | none => simp [hc] at h
+  | some cres =>
+    simp only [hc] at h
+    cases hs : suspFor ca ku.2 ku.1 with
+    | none => simp [hs] at h
+    | some s =>
+      simp only [hs] at h
+      by_cases hcond : (!s.expiring && subset s.res c.resources) = true
+      · simp only [hcond, if_true] at h
+        cases hi : issueRes cres s.res s.limit <;> simp [hi] at h
+      · refine ⟨cres, s, rfl, rfl, ?_⟩
+        simpa [Bool.and_eq_true] using hcond
+
+/-- The record of the child after `ChildUnsuspend`. -/
+def unsuspendedRec (ca : Ca) (c : ChildRec) : ChildRec :=
+  { c with suspended := false,
+           inUse := c.inUse.filter (fun ku => !(fate ca c ku).isDrop),
+           revoked := (c.inUse.filter (fun ku => (fate ca c ku).isDrop)).map (·.1) ++ c.revoked }
+
+theorem unsuspend_eq_some (ca : Ca) (child : Handle) (c : ChildRec) (ca1 : Ca) (c1 : ChildRec)
+    (h : unsuspend ca child c = some (ca1, c1)) :
+    (∀ ku ∈ c.inUse, (fate ca c ku).isFail = false) ∧
+    c1 = unsuspendedRec ca c ∧
+    ca1 = { ca with
+        children := update ca.children child (fun _ => c1),
+        certs := c.inUse.filterMap (fun ku => (fate ca c ku).cert? child ku) ++ ca.certs,
+        suspendedCerts := ca.suspendedCerts.filter fun s =>
+          !(c.inUse.any fun ku => ku.1 == s.key && ku.2 == s.cls && (lookup ca.classes ku.2).isSome) } := by
+  simp only [unsuspend] at h
+  cases hf : c.inUse.any (fun ku => (fate ca c ku).isFail) with
+  | true => simp [hf] at h
+  | false =>
+    simp only [hf, Bool.false_eq_true, if_false, Option.some.injEq, Prod.mk.injEq] at h
+    obtain ⟨h1, h2⟩ := h
+    refine ⟨?_, h2.symm, ?_⟩
+    · intro ku hku
+      cases hx : (fate ca c ku).isFail with
+      | false => rfl
+      | true =>
+        have : c.inUse.any (fun ku => (fate ca c ku).isFail) = true :=
+          List.any_eq_true.mpr ⟨ku, hku, hx⟩
+        rw [hf] at this; cases this
+    · rw [← h1, ← h2]
+
+theorem unsuspend_eq_none (ca : Ca) (child : Handle) (c : ChildRec) :
+    unsuspend ca child c = none ↔ ∃ ku ∈ c.inUse, fate ca c ku = .fail := by
+  simp only [unsuspend]
+  constructor
+  · intro h
+    cases hf : c.inUse.any (fun ku => (fate ca c ku).isFail) with
+    | false => simp [hf] at h
+    | true =>
+      obtain ⟨ku, hku, hx⟩ := List.any_eq_true.mp hf
+      refine ⟨ku, hku, ?_⟩
+      cases hfa : fate ca c ku <;> simp [hfa, Fate.isFail] at hx ⊢
+  · rintro ⟨ku, hku, hfa⟩
+    have : c.inUse.any (fun ku => (fate ca c ku).isFail) = true :=
+      List.any_eq_true.mpr ⟨ku, hku, by simp [hfa, Fate.isFail]⟩
+    simp [this]
+
+/-- What `ChildUnsuspend` can touch. -/
+theorem unsuspend_frame (ca : Ca) (child : Handle) (c : ChildRec) (ca1 : Ca) (c1 : ChildRec)
+    (h : unsuspend ca child c = some (ca1, c1)) :
+    ca1.handle = ca.handle ∧ ca1.idKey = ca.idKey ∧ ca1.classes = ca.classes ∧
+    (∀ h, h ≠ child → lookup ca1.children h = lookup ca.children h) ∧
+    (∀ v, lookup ca.children child = some v → lookup ca1.children child = some c1) ∧
+    (c1.idKey = c.idKey ∧ c1.resources = c.resources ∧ c1.suspended = false ∧
+      ∀ ku ∈ c1.inUse, ku ∈ c.inUse) ∧
+    (∀ ce ∈ ca1.certs,
+        ce ∈ ca.certs ∨ (ce.2.2.1 = child ∧ subset ce.2.2.2.1 c.resources = true ∧
+          ∃ res, lookup ca.classes ce.2.1 = some res ∧ subset ce.2.2.2.1 res = true)) ∧
+    (∀ ce ∈ ca.certs, ce ∈ ca1.certs) ∧
+    (∀ s ∈ ca1.suspendedCerts, s ∈ ca.suspendedCerts) ∧
+    (∀ s ∈ ca.suspendedCerts, s ∈ ca1.suspendedCerts ∨
+      (c.inUse.any fun ku => ku.1 == s.key && ku.2 == s.cls) = true) := by
+  obtain ⟨_, hc1, hca1⟩ := unsuspend_eq_some ca child c ca1 c1 h
+  subst hca1
+  refine ⟨rfl, rfl, rfl, fun h hne => lookup_update_ne ca.children child h (fun _ => c1) hne,
+    fun v hv => lookup_update_eq ca.children child (fun _ => c1) v hv, ?_, ?_, ?_, ?_, ?_⟩
+  · subst hc1
+    refine ⟨rfl, rfl, rfl, ?_⟩
+    intro ku hku
+    exact (List.mem_filter.mp hku).1
+  · intro ce hce
+    rcases List.mem_append.mp hce with hce | hce
+    · right
+      obtain ⟨ku, hku, hcert⟩ := List.mem_filterMap.mp hce
+      cases hfa : fate ca c ku with
+      | reissue g l =>
+        simp only [hfa, Fate.cert?, Option.some.injEq] at hcert
+        subst hcert
+        obtain ⟨cres, s, hcl, _, _, hsub, hiss, _⟩ := fate_reissue ca c ku g l hfa
+        obtain ⟨g1, g2⟩ := issueRes_some _ _ _ _ hiss
+        exact ⟨rfl, subset_trans _ _ _ g1 hsub, cres, hcl, g2⟩
+      | keep => simp [hfa, Fate.cert?] at hcert
+      | drop => simp [hfa, Fate.cert?] at hcert
+      | fail => simp [hfa, Fate.cert?] at hcert
+    · left; exact hce
+  · intro ce hce; exact List.mem_append_right _ hce
+  · intro s hs; exact (List.mem_filter.mp hs).1
+  · intro s hs
+    cases hx : (c.inUse.any fun ku => ku.1 == s.key && ku.2 == s.cls) with
+    | true => right; rfl
+    | false =>
+      left
+      refine List.mem_filter.mpr ⟨hs, ?_⟩
+      simp only [Bool.not_eq_true', List.any_eq_false]
+      intro ku hku
+      have := (List.any_eq_false.mp hx) ku hku
+      intro a
+      apply this
+      simp only [Bool.and_eq_true] at a ⊢
+      exact a.1
+
+/-- The three ways `processRequest` goes. -/
+theorem processRequest_cases (ca : Ca) (child : Handle) (c : ChildRec) (pl : Payload) :
+    (c.suspended = false ∧ processRequest ca child c pl = dispatch ca child c pl) ∨
+    (c.suspended = true ∧ unsuspend ca child c = none ∧ processRequest ca child c pl = (ca, none)) ∨
+    (c.suspended = true ∧ ∃ ca1 c1, unsuspend ca child c = some (ca1, c1) ∧
+      processRequest ca child c pl = dispatch ca1 child c1 pl) := by
+  simp only [processRequest]
+  cases hs : c.suspended with
+  | false => left; simp
+  | true =>
+    right
+    cases hu : unsuspend ca child c with
+    | none => left; simp
+    | some p => right; exact ⟨rfl, p.1, p.2, rfl, by simp⟩
+
+/-- What an authentic request can touch, un-suspension included. -/
+theorem processRequest_frame (ca : Ca) (child : Handle) (c : ChildRec) (pl : Payload) :
+    (processRequest ca child c pl).1.handle = ca.handle ∧
+    (processRequest ca child c pl).1.idKey = ca.idKey ∧
+    (processRequest ca child c pl).1.classes = ca.classes ∧
+    (∀ h, h ≠ child → lookup (processRequest ca child c pl).1.children h = lookup ca.children h) ∧
+    (∀ ce ∈ (processRequest ca child c pl).1.certs,
+        ce ∈ ca.certs ∨ (ce.2.2.1 = child ∧ subset ce.2.2.2.1 c.resources = true ∧
+          ∃ res, lookup ca.classes ce.2.1 = some res ∧ subset ce.2.2.2.1 res = true)) ∧
+    (∀ ce ∈ ca.certs, ce ∈ (processRequest ca child c pl).1.certs ∨
+        (pl.key? = some ce.1 ∧
+          (∀ cls k, pl = .revoke cls k → c.inUse.any (·.1 == k) = true))) ∧
+    (∀ s ∈ (processRequest ca child c pl).1.suspendedCerts, s ∈ ca.suspendedCerts) ∧
+    (∀ s ∈ ca.suspendedCerts, s ∈ (processRequest ca child c pl).1.suspendedCerts ∨
+        pl.key? = some s.key ∨
+        (c.suspended = true ∧ (c.inUse.any fun ku => ku.1 == s.key && ku.2 == s.cls) = true)) := by
+  rcases processRequest_cases ca child c pl with ⟨_, he⟩ | ⟨_, _, he⟩ | ⟨hsus, ca1, c1, hu, he⟩
+  · rw [he]
+    obtain ⟨d1, d2, d3, d4, d5, d6, d7, d8⟩ := dispatch_frame ca child c pl
+    exact ⟨d1, d2, d3, d4, d5, d6, d7, fun s hs => (d8 s hs).elim Or.inl (fun x => Or.inr (Or.inl x))⟩
+  · rw [he]
+    exact ⟨rfl, rfl, rfl, fun _ _ => rfl, fun ce h => Or.inl h, fun ce h => Or.inl h,
+      fun s h => h, fun s h => Or.inl h⟩
+  · rw [he]
+    obtain ⟨u1, u2, u3, u4, _, ⟨_, ures, _, uin⟩, u7, u8, u9, u10⟩ := unsuspend_frame ca child c ca1 c1 hu
+    obtain ⟨d1, d2, d3, d4, d5, d6, d7, d8⟩ := dispatch_frame ca1 child c1 pl
+    refine ⟨d1.trans u1, d2.trans u2, d3.trans u3, fun h hne => (d4 h hne).trans (u4 h hne), ?_, ?_, ?_, ?_⟩
+    · intro ce hce
+      rcases d5 ce hce with h | ⟨h1, h2, res, h3, h4⟩
+      · exact u7 ce h
+      · right; exact ⟨h1, ures ▸ h2, res, u3 ▸ h3, h4⟩
+    · intro ce hce
+      rcases d6 ce (u8 ce hce) with h | ⟨h1, h2⟩
+      · left; exact h
+      · right
+        refine ⟨h1, fun cls k hp => ?_⟩
+        obtain ⟨ku, hku, hk⟩ := List.any_eq_true.mp (h2 cls k hp)
+        exact List.any_eq_true.mpr ⟨ku, uin ku hku, hk⟩
+    · intro s hs; exact u9 s (d7 s hs)
+    · intro s hs
+      rcases u10 s hs with h | h
+      · rcases d8 s h with h' | h'
+        · left; exact h'
+        · right; left; exact h'
+      · right; right; exact ⟨hsus, h⟩
+
+theorem fate_fail_iff (ca : Ca) (c : ChildRec) (ku : Key × String) :
+    fate ca c ku = .fail ↔
+      ∃ cres s, lookup ca.classes ku.2 = some cres ∧ suspFor ca ku.2 ku.1 = some s ∧
+        s.expiring = false ∧ subset s.res c.resources = true ∧ issueRes cres s.res s.limit = none := by
+  constructor
+  · intro h
+    simp only [fate] at h
+    cases hc : lookup ca.classes ku.2 with
+    | none => simp [hc] at h
+    | some cres =>
+      simp only [hc] at h
+      cases hs : suspFor ca ku.2 ku.1 with
+      | none => simp [hs] at h
+      | some s =>
+        simp only [hs] at h
+        by_cases hcond : (!s.expiring && subset s.res c.resources) = true
+        · simp only [hcond, if_true] at h
+          cases hi : issueRes cres s.res s.limit with
+          | some g => simp [hi] at h
+          | none =>
+            simp only [Bool.and_eq_true, Bool.not_eq_true'] at hcond
+            exact ⟨cres, s, rfl, rfl, hcond.1, hcond.2, hi⟩
+        · simp [hcond] at h
+  · rintro ⟨cres, s, hc, hs, h1, h2, h3⟩
+    rw [fate_of_slot ca c ku cres s hc hs]
+    simp [h1, h2, h3]
+
+/-- An answered request was dispatched on the state `X` after the un-suspension (the state itself
+for a sender that was not suspended). -/
+theorem processRequest_replied (ca : Ca) (child : Handle) (c : ChildRec) (pl : Payload) (ca2 : Ca)
+    (p : Payload) (h : processRequest ca child c pl = (ca2, some p)) :
+    ∃ X cX, dispatch X child cX pl = (ca2, some p) ∧ X.classes = ca.classes ∧
+      cX.resources = c.resources ∧ (∀ ku ∈ cX.inUse, ku ∈ c.inUse) ∧
+      (c.suspended = false → X = ca ∧ cX = c) ∧
+      (c.suspended = true → unsuspend ca child c = some (X, cX)) := by
+  rcases processRequest_cases ca child c pl with ⟨hs, he⟩ | ⟨_, _, he⟩ | ⟨hs, ca1, c1, hu, he⟩
+  · rw [he] at h
+    exact ⟨ca, c, h, rfl, rfl, fun _ x => x, fun _ => ⟨rfl, rfl⟩, fun x => absurd (hs.symm.trans x) (by decide)⟩
+  · rw [he] at h; cases h
+  · rw [he] at h
+    obtain ⟨_, _, u3, _, _, ⟨_, ures, _, uin⟩, _⟩ := unsuspend_frame ca child c ca1 c1 hu
+    exact ⟨ca1, c1, h, u3, ures, uin, (fun x => absurd (hs.symm.trans x) (by decide)), fun _ => hu⟩
+
+/-- `dispatch` keeps the sender registered, with the same identity key, entitlement and
+suspension state. -/
+theorem dispatch_child_rec (ca : Ca) (child : Handle) (c : ChildRec) (pl : Payload)
+    (hl : lookup ca.children child = some c) :
+    ∃ c', lookup (dispatch ca child c pl).1.children child = some c' ∧
+      c'.suspended = c.suspended ∧ c'.idKey = c.idKey ∧ c'.resources = c.resources := by
+  have same : ∃ c', lookup ca.children child = some c' ∧
+      c'.suspended = c.suspended ∧ c'.idKey = c.idKey ∧ c'.resources = c.resources :=
+    ⟨c, hl, rfl, rfl, rfl⟩
+  cases pl with
+  | list => exact same
+  | listResponse x => exact same
+  | issueResponse x y z => exact same
+  | revokeResponse x y => exact same
+  | errorResponse x => exact same
+  | issue cls key limit csrOk =>
+    simp only [dispatch]
+    cases hc : lookup ca.classes cls with
+    | none => exact same
+    | some res =>
+      simp only
+      cases hg : (if csrOk = true then issueRes res c.resources limit else none) with
+      | none => exact same
+      | some grant =>
+        simp only
+        exact ⟨_, lookup_update_eq ca.children child _ c hl, rfl, rfl, rfl⟩
+  | revoke cls key =>
+    simp only [dispatch]
+    cases hc : lookup ca.classes cls with
+    | none => exact same
+    | some res =>
+      simp only
+      cases hu : c.inUse.any (·.1 == key) with
+      | true =>
+        simp only [if_true]
+        exact ⟨_, lookup_update_eq ca.children child _ c hl, rfl, rfl, rfl⟩
+      | false => simpa using same
 
 /-- What an accepted delta consists of. -/
 theorem delta_accepted (p : Publisher) (els : List PElem) (h : els.findSome? (elemError p) = none) :
